@@ -3,6 +3,7 @@ package main
 import (
 	"encoding/json"
 	"os"
+	"runtime"
 	"path/filepath"
 	"fmt"
 	"go/token"
@@ -143,6 +144,13 @@ func (x *Exec) verify() (res verifyResult) {
 				res.Unsupported = e.msg
 			case specErr:
 				res.Unsupported = "spec error: " + e.msg
+			case runtime.Error:
+				// an engine fault on this function's current body: reported like any other body the
+				// engine cannot follow (the function's /supported obligation), never a silent abort
+				if os.Getenv("GCV_PANIC") != "" {
+					panic(r)
+				}
+				res.Unsupported = "engine error: " + e.Error()
 			default:
 				panic(r)
 			}
